@@ -545,7 +545,7 @@ def fingerprints(job):
             if tg.fxp:
                 head += ["_.f = PrivValFxp(I[0] / 2.0)"]
             if tg.arrays:
-                head += ["_.arr = Array([_.a + 1, _.b + 2, ConstVal(9)])"]
+                head += ["_.arr = Array([_.a + 1, _.b + 2, ConstVal(9)])", "_.arr2 = Array([Array([_.a + 0, ConstVal(1)]), Array([_.b + 0, _.c + 0])])"]
             if tg.shared:
                 head += ["S = [_.a + 2, _.b + 3, ConstVal(5)]", "T = [_.c + 1, ConstVal(7), _.a + 0]"]
             src = "\n".join(head + C09.render(tree, True)) + "\n"
@@ -559,7 +559,7 @@ def fingerprints(job):
             if tg.fxp:
                 thead += ["f = I[0] / 2.0"]
             if tg.arrays:
-                thead += ["arr = [a + 1, b + 2, 9]"]
+                thead += ["arr = [a + 1, b + 2, 9]", "arr2 = [[a + 0, 1], [b + 0, c + 0]]"]
             if tg.shared:
                 thead += ["S = [a + 2, b + 3, 5]", "T = [c + 1, 7, a + 0]"]
             tns = {"I": list(vecs[job["vec"] % 2]), "TwinMustRaise": C09.TwinMustRaise, "NEG": [], "chk": C09.chk}
